@@ -240,6 +240,9 @@ func corrPrims(r *rng, c *caseOut, n int) {
 			c.tag("index")
 		case 8:
 			k := 1 + r.intn(4)
+			if r.chance(1, 5) {
+				k = []int{255, 256, 257, 300, 700}[r.intn(5)] // more faces than a byte can number
+			}
 			wts := make([]int, k)
 			parts := make([]string, k)
 			for j := range wts {
